@@ -188,6 +188,27 @@ func (fx *FX) sortSearch(fr *frame, st *State, callee *ssa.Function, args []Val,
 	atPrev, s2 := eval(prev, Gt(r, zero))
 	fx.assume(s1.reach, atR)
 	fx.assume(s2.reach, Not(atPrev))
+	// error latches: if the predicate's verified contract has an ensures labelled [latch], a captured
+	// error cell that is non-nil after a probe is non-nil after the search (probes r and r-1 did run)
+	var latchCells []Term
+	if cc := fx.e.contractFor(f.Clo.Fn); cc != nil {
+		hasLatch := false
+		for _, cl := range cc.Ensures {
+			if cl.Name == "latch" {
+				hasLatch = true
+			}
+		}
+		if hasLatch {
+			for k, fv := range f.Clo.Fn.FreeVars {
+				if k < len(f.Clo.Bindings) && !freeVarReadOnly(fv) && f.Clo.Bindings[k].Addr == nil {
+					if pt, ok := fv.Type().Underlying().(*types.Pointer); ok && fx.e.W.SortOf(pt.Elem()) == SIface {
+						latchCells = append(latchCells, f.Clo.Bindings[k].T)
+					}
+				}
+			}
+		}
+	}
+	probeStates := []*State{s1, s2}
 	// effects of the predicate (it may run any number of times)
 	{
 		var ks []string
@@ -211,6 +232,13 @@ func (fx *FX) sortSearch(fr *frame, st *State, callee *ssa.Function, args []Val,
 		if old, ok := st.cells[a]; ok {
 			st.cells[a] = fx.freshConst("cell_"+a.Name(), old.Sort)
 			logCell(a)
+		}
+	}
+	for _, cell := range latchCells {
+		final := Select(fx.comp(st, "B:Iface", SArr(SInt, SIface)), cell)
+		for _, ps := range probeStates {
+			after := Select(fx.comp(ps, "B:Iface", SArr(SInt, SIface)), cell)
+			fx.assume(ps.reach, Implies(Not(IfaceIsNil(after)), Not(IfaceIsNil(final))))
 		}
 	}
 	// the calls must be safe wherever f is invoked: indices 0..n-1
